@@ -2043,6 +2043,9 @@ class Engine:
     def make_arg(self, name, decl, st):
         """decl: concrete python value | type string 'int' 'real' 'bool' 'u64' ... | array 'real[:]', 'i32[:,3]',
         optionally with numpy dtype suffix 'int[:]@int32'"""
+        if isinstance(decl, dict) and decl and all(isinstance(v, str) and re.fullmatch(r'\w+\[[^\]]*\](!ro)?(@\w+)?', v) for v in decl.values()):
+            # a dictionary of arrays (concrete keys, symbolic arrays)
+            return {k: self.make_arg(f'{name}_{k}', v, st) for k, v in decl.items()}
         if not isinstance(decl, str) or decl.startswith('='):
             return decl[1:] if isinstance(decl, str) else decl
         if decl.startswith('chunks:'):
